@@ -281,6 +281,12 @@ def replay(key, obligation, witness):
         d = max(P5._rel(sB.fields.E, s1.fields.E), P5._rel(sB.fields.H, s1.fields.H), P5._rel(sB.detector_states["energy"]["energy"], s1.detector_states["energy"]["energy"]))
         details.append(f"T={T} [a,m,b]=[{a},{m},{b}] reset_first={rf} record_detectors={rd}: end counters {int(t1)}/{int(tB)} (expected {b}), max relative diff split vs single {d:.3e}")
         bad |= int(t1) != b or int(tB) != b or d > 1e-9
+        if rf:
+            # a zero-step leg with reset_container=True on the used (dirty) container must hand back a reset container
+            t0_, s0_ = F.custom_fdtd_forward(arrays, oc, cfg, k, reset_container=True, record_detectors=rd, start_time=wrap(a), end_time=wrap(a), show_progress=False)
+            z0 = max(float(jnp.max(jnp.abs(s0_.fields.E))), float(jnp.max(jnp.abs(s0_.fields.H))), float(jnp.max(jnp.abs(s0_.detector_states["energy"]["energy"]))))
+            details.append(f"   zero-step reset leg at {a} (record_detectors={rd}) on a used container: max |time-dependent leaf| = {z0:.3e}")
+            bad |= z0 != 0
         if a == 0 and b == T and rf and rd:
             tf, sf = fdtdx.run_fdtd(arrays, oc, cfg, k, show_progress=False)
             tf2, sf2 = fdtdx.run_fdtd(sf, oc, cfg, k, show_progress=False)
